@@ -251,6 +251,54 @@ def run_batchnorm(ck, drv, ops, seed, mm):
                 return
 
 
+def frozen_in_a_flow(ck, seed):
+    """the layers inside a flow: a normalisation layer that was put in evaluation mode (frozen) while the flow trains keeps that
+    mode through the flow's own calls - sampling only calls inverses - and the next forward pass then neither moves BatchNorm's
+    running statistics nor runs ActNorm's initialisation"""
+    from nflows.flows.base import Flow
+    from nflows.flows.realnvp import SimpleRealNVP
+    from nflows.distributions.normal import StandardNormal
+    from nflows.transforms.base import CompositeTransform
+    from nflows.transforms.normalization import ActNorm, BatchNorm
+    from nflows.transforms.standard import PointwiseAffineTransform
+    torch.manual_seed(seed % 100000 + 3)
+    flows = (("SimpleRealNVP(batch norm between layers)", lambda: SimpleRealNVP(features=4, hidden_features=8, num_layers=2, num_blocks_per_layer=1,
+                                                                                 batch_norm_between_layers=True)),
+             ("Flow(affine ; ActNorm ; BatchNorm, StandardNormal)", lambda: Flow(CompositeTransform([PointwiseAffineTransform(0.1, 1.2), ActNorm(4), BatchNorm(4)]),
+                                                                               StandardNormal([4]))))
+    for fname, mk in flows:
+        for call in ("sample", "sample_and_log_prob", "transform_to_noise"):
+            fl = mk()
+            fl.train()
+            g = tgen(seed, "c14-flow", fname, call)
+            for _ in range(3):
+                fl.log_prob(torch.randn(32, 4, generator=g) * 2.0 + 1.0)
+            norms = [m for m in fl.modules() if isinstance(m, (BatchNorm, ActNorm))]
+            for m in norms:
+                m.eval()
+            flags = [m.training for m in fl.modules()]
+            state = {k: v.clone() for k, v in fl.state_dict().items()}
+            ck.case(("c14-flow", fname, call), nontrivial=True)
+            case = {"search": "frozen-layers-in-a-flow", "flow": fname, "call": call, "seed": seed}
+            with torch.no_grad():
+                r = attempt(fl.sample, 5) if call == "sample" else (attempt(fl.sample_and_log_prob, 5) if call == "sample_and_log_prob"
+                                                                     else attempt(fl.transform_to_noise, torch.randn(6, 4, generator=g)))
+            if r[0] != "ok":
+                ck.count("flow-call-raises:%s:%s" % (call, r[1]))
+                continue
+            now = [m.training for m in fl.modules()]
+            if now != flags:
+                ck.finding("norm:mode-changed-by-flow-call:%s" % call,
+                           "%s: flow in training mode, normalisation layers frozen with eval(); after flow.%s the training flags went from %s to %s"
+                           % (fname, call, flags, now), case)
+                continue
+            fl.log_prob(torch.randn(16, 4, generator=g) * 3.0 - 2.0)
+            moved = [k for k, v in fl.state_dict().items() if ("running" in k or "initialized" in k) and not torch.equal(v, state[k])]
+            if moved:
+                ck.finding("norm:frozen-layer-state-moved:%s" % call, "%s: after flow.%s a forward pass changed %s of layers that are in evaluation mode"
+                           % (fname, call, moved), case)
+
+
 def run(tier, seed):
     ck = Check("C14", tier, seed, areas=["norm"], gen_groups=["Norm"])
     ck.rule = ("histories over {train(), eval(), forward(batch), inverse(batch), save+load into a fresh instance} with "
@@ -272,6 +320,7 @@ def run(tier, seed):
         ck.case(("bn", tuple(ops)), nontrivial=ops.count(FWD) >= 2)
         ck.count("BatchNorm")
         run_batchnorm(ck, drv, ops, seed + hi, mm)
+    frozen_in_a_flow(ck, seed)
     ck.sample({"history": [NAMES[o] for o in histories(tier, seed)[3]]})
     if drv is not None:
         ck.correspondence("lock-step histories: flags, parameters / running statistics, outputs, outcome", n, mm)
